@@ -57,13 +57,13 @@ static int ref_special(const unsigned char *s, unsigned n)
     unsigned i;
     for (i = 0; i < n; i++)
         if (s[i] == '.') { prev = last; last = (int) i; }
-    const unsigned char *l1 = s + last + 1;
+    const unsigned char *l1 = s + (last + 1);
     unsigned n1 = n - (unsigned) (last + 1);
     if (ref_ci_eq(l1, n1, "test") || ref_ci_eq(l1, n1, "example") || ref_ci_eq(l1, n1, "invalid") ||
         ref_ci_eq(l1, n1, "localhost") || ref_ci_eq(l1, n1, "onion"))
         return 1;
     if (last >= 0) {
-        const unsigned char *l2 = s + prev + 1;
+        const unsigned char *l2 = s + (prev + 1);
         unsigned n2 = (unsigned) (last - (prev + 1));
         if (ref_ci_eq(l2, n2, "example") &&
             (ref_ci_eq(l1, n1, "com") || ref_ci_eq(l1, n1, "net") || ref_ci_eq(l1, n1, "org")))
